@@ -1,1 +1,672 @@
-(* placeholder *)
+(* Proofs about the built-in job models (JobsModel.v). *)
+From Coq Require Import ZArith List Bool Arith Lia.
+Require Import QzJobs.Gen.Params QzJobs.JobsModel.
+Import ListNotations.
+Open Scope nat_scope.
+
+(* ------------------------------------------------------------------ status functions *)
+Theorem status_constants_distinct :
+  go_StatusNA <> go_StatusOK /\ go_StatusNA <> go_StatusFailure /\ go_StatusOK <> go_StatusFailure.
+Proof. repeat split; intros H; vm_compute in H; discriminate. Qed.
+
+(* structural facts of the source that the models rely on and that have no other place *)
+Theorem source_shape :
+  sh_fields_from_this_run = true /\ sh_uses_ctx = true /\ sh_callback_after_unlock = true /\
+  cu_rebinds_ctx = true /\ cu_status_after_do = true /\ cu_callback_after_unlock = true /\
+  cu_nil_guard = true /\ fn_returns_call_err = true /\ sh_returns_run_err = true /\ cu_returns_do_err = true.
+Proof. repeat split; reflexivity. Qed.
+
+Theorem fn_commit_spec : forall (R E : Type) (zero res : R) (err : option E),
+  fn_commit R E zero (res, err) =
+  match err with
+  | None => (go_StatusOK, res, None)
+  | Some e => (go_StatusFailure, zero, Some e)
+  end.
+Proof. intros R E zero res [e|]; reflexivity. Qed.
+
+Theorem fn_status_ok_iff : forall (R E : Type) (zero res : R) (err : option E),
+  fst (fst (fn_commit R E zero (res, err))) = go_StatusOK <-> err = None.
+Proof.
+  intros R E zero res err. rewrite fn_commit_spec. destruct err as [e|]; cbn [fst]; split; intros H;
+    try reflexivity; try discriminate.
+Qed.
+
+Theorem fn_return_spec : forall (R E : Type) (o : fn_outcome R E), fn_return R E o = snd o.
+Proof. reflexivity. Qed.
+
+Lemma sh_status_spec : forall r, sh_status r = match run_err r with None => go_StatusOK | Some _ => go_StatusFailure end.
+Proof. intros r. unfold sh_status. destruct (run_err r); reflexivity. Qed.
+
+Lemma run_err_none_iff : forall r, run_err r = None <-> r = Exited 0%Z.
+Proof.
+  intros r. destruct r as [c| |]; cbn [run_err]; try (split; intros H; discriminate).
+  destruct (Z.eqb_spec c 0); split; intros H; try reflexivity; try discriminate; try congruence.
+Qed.
+
+Theorem sh_status_ok_iff : forall r, sh_status r = go_StatusOK <-> r = Exited 0%Z.
+Proof.
+  intros r. rewrite sh_status_spec, <- run_err_none_iff.
+  destruct (run_err r); split; intros H; try reflexivity; try discriminate.
+Qed.
+
+Theorem sh_status_exit_codes : forall c : Z,
+  (sh_status (Exited c) = go_StatusOK <-> c = 0%Z) /\
+  (sh_status (Exited c) = go_StatusFailure <-> c <> 0%Z).
+Proof.
+  intros c. rewrite sh_status_spec. cbn [run_err]. destruct (Z.eqb_spec c 0); split; split; intros H;
+    try reflexivity; try discriminate; try congruence; try contradiction.
+Qed.
+
+Theorem sh_failure_iff_err : forall r, sh_status r = go_StatusFailure <-> run_err r <> None.
+Proof.
+  intros r. rewrite sh_status_spec. destruct (run_err r); split; intros H; try reflexivity; try discriminate;
+    try congruence.
+Qed.
+
+Theorem sh_commit_spec : forall (S : Type) (r : run_result) (out err : S),
+  sh_commit S (r, out, err) = (out, err, exit_code r, sh_status r) /\ sh_return S (r, out, err) = run_err r.
+Proof. intros; split; reflexivity. Qed.
+
+Theorem http_code_ok_iff : forall c : Z, http_code_ok c = true <-> (200 <= c < 400)%Z.
+Proof.
+  intros c. unfold http_code_ok. change cu_code_cmps with [(OpGe, 200%Z); (OpLt, 400%Z)].
+  cbn [forallb fst snd cmp]. rewrite andb_true_r, andb_true_iff, Z.leb_le, Z.ltb_lt. reflexivity.
+Qed.
+
+Lemma cu_status_spec : forall resp,
+  cu_status resp = match resp with
+                   | Some (c, _) => if http_code_ok c then go_StatusOK else go_StatusFailure
+                   | None => go_StatusFailure end.
+Proof. intros [[c b]|]; reflexivity. Qed.
+
+Theorem cu_status_ok_iff : forall resp : option (Z * bool),
+  cu_status resp = go_StatusOK <-> exists c b, resp = Some (c, b) /\ (200 <= c < 400)%Z.
+Proof.
+  intros resp. rewrite cu_status_spec. destruct resp as [[c b]|].
+  - destruct (http_code_ok c) eqn:E; split; intros H.
+    + exists c, b. split; [reflexivity|]. apply http_code_ok_iff. exact E.
+    + reflexivity.
+    + discriminate.
+    + destruct H as [c' [b' [Heq Hr]]]. injection Heq as <- <-. apply http_code_ok_iff in Hr. congruence.
+  - split; intros H; [discriminate|]. destruct H as [c [b [H _]]]. discriminate.
+Qed.
+
+Theorem cu_status_total : forall resp, cu_status resp = go_StatusOK \/ cu_status resp = go_StatusFailure.
+Proof. intros resp. rewrite cu_status_spec. destruct resp as [[c b]|]; [destruct (http_code_ok c)|]; auto. Qed.
+
+Theorem cu_transport_error_fails : cu_status None = go_StatusFailure.
+Proof. reflexivity. Qed.
+
+Theorem cu_commit_spec : forall (E : Type) (o : cu_outcome E),
+  cu_commit E o = (fst o, cu_status (fst o)) /\ cu_return E o = snd o.
+Proof. intros; split; reflexivity. Qed.
+
+(* the finite domain the harness sweeps, decided inside Coq: every code 100..599 *)
+Theorem http_codes_100_599 :
+  forallb (fun n => let c := Z.of_nat (100 + n) in
+                    Z.eqb (cu_status (Some (c, true))) (if ((200 <=? c) && (c <? 400))%Z then go_StatusOK else go_StatusFailure))
+          (seq 0 500) = true.
+Proof. vm_compute. reflexivity. Qed.
+
+(* ------------------------------------------------------------------ concurrent executions *)
+Section LTS.
+  Variable O : Type.
+  Variable body : O -> nat.
+  Variable c : jcfg.
+
+  Notation nf := (jc_nfields c).
+  Notation step := (jstep body c).
+  Notation run := (jrun body c).
+
+  Lemma jupd_same : forall (f : nat -> jpc O) t p, jupd f t p t = p.
+  Proof. intros; unfold jupd; rewrite Nat.eqb_refl; reflexivity. Qed.
+  Lemma jupd_other : forall (f : nat -> jpc O) t p u, u <> t -> jupd f t p u = f u.
+  Proof. intros f t p u H; unfold jupd. destruct (Nat.eqb_spec u t); [contradiction|reflexivity]. Qed.
+  Lemma vupd_same : forall (f : nat -> option (nat * O)) k v, vupd f k v k = v.
+  Proof. intros; unfold vupd; rewrite Nat.eqb_refl; reflexivity. Qed.
+  Lemma vupd_other : forall (f : nat -> option (nat * O)) k v i, i <> k -> vupd f k v i = f i.
+  Proof. intros f k v i H; unfold vupd. destruct (Nat.eqb_spec i k); [contradiction|reflexivity]. Qed.
+
+  Record jinv (s : jstate O) : Prop := {
+    ji_lock : forall t, holds_lock (j_pc s t) = true <-> j_lock s = Some t;
+    ji_free : j_lock s = None -> forall k, k < nf -> j_vis s k = j_last s;
+    ji_locked : forall t, j_pc s t = JLocked -> forall k, k < nf -> j_vis s k = j_last s;
+    ji_writing : forall t o k, j_pc s t = JWriting o k ->
+                   k <= nf /\ (forall i, i < k -> j_vis s i = Some (t, o)) /\
+                   (forall i, k <= i -> i < nf -> j_vis s i = j_last s);
+    ji_nogap : forall t o k, j_pc s t <> JGap o k;
+    ji_lastlog : last_commit (j_log s) = j_last s
+  }.
+
+  Lemma jinv_init : jinv jinit.
+  Proof.
+    split; cbn; intros; try discriminate; try reflexivity.
+    split; intros; discriminate.
+  Qed.
+
+  Ltac jcases u t H :=
+    destruct (Nat.eq_dec u t) as [->|?];
+    [rewrite jupd_same in H | rewrite jupd_other in H by assumption].
+
+  (* a step that only moves one thread between pcs outside the critical section *)
+  Lemma jinv_set_pc : forall s t p n l,
+    jinv s -> holds_lock (j_pc s t) = false -> holds_lock p = false -> (forall o k, p <> JGap o k) ->
+    last_commit l = last_commit (j_log s) ->
+    jinv {| j_lock := j_lock s; j_pc := jupd (j_pc s) t p; j_vis := j_vis s; j_last := j_last s;
+            j_open := n; j_log := l |}.
+  Proof.
+    intros s t p n l [Hl Hf Hk Hw Hg Hll] Hold Hp Hpg Hlog.
+    split; cbn [j_lock j_pc j_vis j_last j_log].
+    - intros u. destruct (Nat.eq_dec u t) as [->|Hne].
+      + rewrite jupd_same, Hp. split; intros H; [discriminate|]. apply Hl in H. congruence.
+      + rewrite jupd_other by exact Hne. apply Hl.
+    - exact Hf.
+    - intros u Hu. jcases u t Hu; [subst p; discriminate|]. exact (Hk _ Hu).
+    - intros u o k Hu. jcases u t Hu; [subst p; discriminate|]. exact (Hw _ _ _ Hu).
+    - intros u o k Hu. jcases u t Hu; [exact (Hpg _ _ Hu)|exact (Hg _ _ _ Hu)].
+    - rewrite Hlog. exact Hll.
+  Qed.
+
+  Hypothesis Hsplit : jc_split c = false.
+
+  Lemma jinv_step : forall s a s', jinv s -> step s a = Some s' -> jinv s'.
+  Proof.
+    intros s a s' I Hstep. pose proof I as [Hl Hf Hk Hw Hg Hll].
+    destruct a as [t o|t|t o|t|t|t|t|t]; cbn [jstep] in Hstep.
+    - (* JCompute *)
+      destruct (jc_in_lock c); [discriminate|].
+      destruct (j_pc s t) eqn:Et; try discriminate. injection Hstep as <-.
+      apply jinv_set_pc; try assumption; try reflexivity; try (rewrite Et; reflexivity). intros; discriminate.
+    - (* JLock *)
+      destruct (j_lock s) eqn:El; [discriminate|].
+      assert (Hnoholder : forall u, holds_lock (j_pc s u) = true -> False).
+      { intros u Hu. apply Hl in Hu. discriminate. }
+      destruct (j_pc s t) as [|o| |o k|o k|o n] eqn:Et; try discriminate.
+      + destruct (jc_in_lock c); [|discriminate]. injection Hstep as <-.
+        split; cbn [j_lock j_pc j_vis j_last j_log].
+        * intros u. destruct (Nat.eq_dec u t) as [->|Hne].
+          -- rewrite jupd_same. split; reflexivity.
+          -- rewrite jupd_other by exact Hne. split; intros H; [exfalso; exact (Hnoholder _ H)|congruence].
+        * discriminate.
+        * intros u Hu. jcases u t Hu; [exact (Hf eq_refl)|exact (Hk _ Hu)].
+        * intros u o k Hu. jcases u t Hu; [discriminate|exact (Hw _ _ _ Hu)].
+        * intros u o k Hu. jcases u t Hu; [discriminate|exact (Hg _ _ _ Hu)].
+        * exact Hll.
+      + injection Hstep as <-.
+        split; cbn [j_lock j_pc j_vis j_last j_log].
+        * intros u. destruct (Nat.eq_dec u t) as [->|Hne].
+          -- rewrite jupd_same. split; reflexivity.
+          -- rewrite jupd_other by exact Hne. split; intros H; [exfalso; exact (Hnoholder _ H)|congruence].
+        * discriminate.
+        * intros u Hu. jcases u t Hu; [discriminate|exact (Hk _ Hu)].
+        * intros u o' k Hu. jcases u t Hu; [|exact (Hw _ _ _ Hu)].
+          injection Hu as <- <-. split; [lia|]. split; [intros i Hi; lia|].
+          intros i _ Hi. exact (Hf eq_refl i Hi).
+        * intros u o' k Hu. jcases u t Hu; [discriminate|exact (Hg _ _ _ Hu)].
+        * exact Hll.
+      + exfalso. exact (Hg _ _ _ Et).
+    - (* JDo *)
+      destruct (j_pc s t) eqn:Et; try discriminate. injection Hstep as <-.
+      assert (Hlt : j_lock s = Some t) by (apply Hl; rewrite Et; reflexivity).
+      split; cbn [j_lock j_pc j_vis j_last j_log].
+      + intros u. destruct (Nat.eq_dec u t) as [->|Hne].
+        * rewrite jupd_same. split; intros _; [exact Hlt|reflexivity].
+        * rewrite jupd_other by exact Hne. apply Hl.
+      + exact Hf.
+      + intros u Hu. jcases u t Hu; [discriminate|exact (Hk _ Hu)].
+      + intros u o' k Hu. jcases u t Hu; [|exact (Hw _ _ _ Hu)].
+        injection Hu as <- <-. split; [lia|]. split; [intros i Hi; lia|].
+        intros i _ Hi. exact (Hk _ Et i Hi).
+      + intros u o' k Hu. jcases u t Hu; [discriminate|exact (Hg _ _ _ Hu)].
+      + exact Hll.
+    - (* JWrite *)
+      destruct (j_pc s t) as [|o| |o k|o k|o n] eqn:Et; try discriminate.
+      destruct (Nat.ltb_spec k nf) as [Hk'|]; [|discriminate]. injection Hstep as <-.
+      assert (Hlt : j_lock s = Some t) by (apply Hl; rewrite Et; reflexivity).
+      assert (Honly : forall u, holds_lock (j_pc s u) = true -> u = t).
+      { intros u Hu. apply Hl in Hu. congruence. }
+      destruct (Hw _ _ _ Et) as [_ [Hlow Hhigh]].
+      split; cbn [j_lock j_pc j_vis j_last j_log].
+      + intros u. destruct (Nat.eq_dec u t) as [->|Hne].
+        * rewrite jupd_same. split; intros _; [exact Hlt|reflexivity].
+        * rewrite jupd_other by exact Hne. apply Hl.
+      + intros H. congruence.
+      + intros u Hu. jcases u t Hu; [discriminate|].
+        exfalso. apply n. apply Honly. rewrite Hu. reflexivity.
+      + intros u o' k' Hu. jcases u t Hu.
+        * injection Hu as <- <-. split; [lia|]. split.
+          -- intros i Hi. destruct (Nat.eq_dec i k) as [->|Hne]; [apply vupd_same|].
+             rewrite vupd_other by exact Hne. apply Hlow. lia.
+          -- intros i Hi1 Hi2. rewrite vupd_other by lia. apply Hhigh; lia.
+        * exfalso. apply n. apply Honly. rewrite Hu. reflexivity.
+      + intros u o' k' Hu. jcases u t Hu; [discriminate|exact (Hg _ _ _ Hu)].
+      + exact Hll.
+    - (* JSplit: not a step of a configuration with one critical section *)
+      rewrite Hsplit in Hstep. discriminate.
+    - (* JUnlock *)
+      destruct (j_pc s t) as [|o| |o k|o k|o n] eqn:Et; try discriminate.
+      destruct (Nat.eqb_spec k nf) as [->|]; [|discriminate]. injection Hstep as <-.
+      assert (Hlt : j_lock s = Some t) by (apply Hl; rewrite Et; reflexivity).
+      assert (Honly : forall u, holds_lock (j_pc s u) = true -> u = t).
+      { intros u Hu. apply Hl in Hu. congruence. }
+      destruct (Hw _ _ _ Et) as [_ [Hlow _]].
+      split; cbn [j_lock j_pc j_vis j_last j_log last_commit].
+      + intros u. destruct (Nat.eq_dec u t) as [->|Hne].
+        * rewrite jupd_same. cbn. split; intros; discriminate.
+        * rewrite jupd_other by exact Hne. split; intros H; [|discriminate].
+          exfalso. apply Hne. exact (Honly _ H).
+      + intros _ k Hk'. exact (Hlow _ Hk').
+      + intros u Hu. jcases u t Hu; [discriminate|].
+        exfalso. apply n. apply Honly. rewrite Hu. reflexivity.
+      + intros u o' k' Hu. jcases u t Hu; [discriminate|].
+        exfalso. apply n. apply Honly. rewrite Hu. reflexivity.
+      + intros u o' k' Hu. jcases u t Hu; [discriminate|exact (Hg _ _ _ Hu)].
+      + reflexivity.
+    - (* JCallback *)
+      destruct (j_pc s t) as [|o| |o k|o k|o n] eqn:Et; try discriminate.
+      destruct (n <? jc_ncb c); [|discriminate]. injection Hstep as <-.
+      apply jinv_set_pc; try assumption; try reflexivity; try (rewrite Et; reflexivity). intros; discriminate.
+    - (* JReturn *)
+      destruct (j_pc s t) as [|o| |o k|o k|o n] eqn:Et; try discriminate.
+      destruct (Nat.eqb n (jc_ncb c)); [|discriminate]. injection Hstep as <-.
+      apply jinv_set_pc; try assumption; try reflexivity; try (rewrite Et; reflexivity). intros; discriminate.
+  Qed.
+
+  Lemma jinv_run_from : forall tr s s', jinv s -> run s tr = Some s' -> jinv s'.
+  Proof.
+    induction tr as [|a tr IH]; intros s s' Hi Hr; cbn [jrun] in Hr.
+    - injection Hr as <-. exact Hi.
+    - destruct (step s a) as [s1|] eqn:E; [|discriminate].
+      exact (IH _ _ (jinv_step _ _ _ Hi E) Hr).
+  Qed.
+
+  Lemma jinv_reachable : forall tr s, run jinit tr = Some s -> jinv s.
+  Proof. intros tr s H. exact (jinv_run_from _ _ _ jinv_init H). Qed.
+
+  (* whenever the mutex is free (= whenever a getter can look), every field was written by the
+     execution whose commit completed last, and that is the newest commit event of the history *)
+  Theorem last_outcome_atomic : forall tr s,
+    run jinit tr = Some s -> j_lock s = None ->
+    (forall k, k < nf -> j_vis s k = j_last s) /\ last_commit (j_log s) = j_last s.
+  Proof.
+    intros tr s H Hfree. pose proof (jinv_reachable _ _ H) as I. split.
+    - exact (ji_free _ I Hfree).
+    - exact (ji_lastlog _ I).
+  Qed.
+
+  (* executions are serialised between Lock and Unlock *)
+  Theorem critical_section_exclusive : forall tr s t u,
+    run jinit tr = Some s -> holds_lock (j_pc s t) = true -> holds_lock (j_pc s u) = true -> t = u.
+  Proof.
+    intros tr s t u H Ht Hu. pose proof (jinv_reachable _ _ H) as I.
+    apply (ji_lock _ I) in Ht. apply (ji_lock _ I) in Hu. congruence.
+  Qed.
+
+  (* ---- open response bodies (CurlJob: outcome produced under the lock, previous body closed) ---- *)
+  Hypothesis Hin : jc_in_lock c = true.
+  Hypothesis Hclose : jc_close_prev c = true.
+  Hypothesis Hnf : 0 < nf.
+  Hypothesis Hbody : forall o, body o <= 1.
+
+  Record oinv (s : jstate O) : Prop := {
+    oi_free : j_lock s = None -> j_open s = body_of body (j_last s);
+    oi_locked : forall t, j_pc s t = JLocked -> j_open s = body_of body (j_last s);
+    oi_writing : forall t o k, j_pc s t = JWriting o k -> j_open s = body o;
+    oi_nocomp : forall t o, j_pc s t <> JComputed o
+  }.
+
+  Lemma oinv_init : oinv jinit.
+  Proof. split; cbn; intros; try discriminate; reflexivity. Qed.
+
+  Lemma oinv_step : forall s a s', jinv s -> oinv s -> step s a = Some s' -> oinv s'.
+  Proof.
+    intros s a s' [Hl Hf Hk Hw Hg Hll] [Of Ok Ow Oc] Hstep.
+    destruct a as [t o|t|t o|t|t|t|t|t]; cbn [jstep] in Hstep.
+    - rewrite Hin in Hstep. discriminate.
+    - destruct (j_lock s) eqn:El; [discriminate|].
+      destruct (j_pc s t) as [|o| |o k|o k|o n] eqn:Et; try discriminate.
+      + rewrite Hin in Hstep. injection Hstep as <-.
+        split; cbn [j_lock j_pc j_vis j_last j_log j_open].
+        * discriminate.
+        * intros u Hu. jcases u t Hu; [exact (Of eq_refl)|exact (Ok _ Hu)].
+        * intros u o k Hu. jcases u t Hu; [discriminate|exact (Ow _ _ _ Hu)].
+        * intros u o Hu. jcases u t Hu; [discriminate|exact (Oc _ _ Hu)].
+      + exfalso. exact (Oc _ _ Et).
+      + exfalso. exact (Hg _ _ _ Et).
+    - destruct (j_pc s t) eqn:Et; try discriminate. injection Hstep as <-.
+      assert (Hlt : j_lock s = Some t) by (apply Hl; rewrite Et; reflexivity).
+      assert (Honly : forall u, holds_lock (j_pc s u) = true -> u = t).
+      { intros u Hu. apply Hl in Hu. congruence. }
+      assert (Hop : (if jc_close_prev c then j_open s - body_of body (j_vis s 0) else j_open s) + body o = body o).
+      { rewrite Hclose, (Hk _ Et 0 Hnf), (Ok _ Et). lia. }
+      split; cbn [j_lock j_pc j_vis j_last j_log j_open].
+      + intros H. congruence.
+      + intros u Hu. jcases u t Hu; [discriminate|].
+        exfalso. apply n. apply Honly. rewrite Hu. reflexivity.
+      + intros u o' k Hu. jcases u t Hu.
+        * injection Hu as <- _. exact Hop.
+        * exfalso. apply n. apply Honly. rewrite Hu. reflexivity.
+      + intros u o' Hu. jcases u t Hu; [discriminate|exact (Oc _ _ Hu)].
+    - destruct (j_pc s t) as [|o| |o k|o k|o n] eqn:Et; try discriminate.
+      destruct (k <? nf); [|discriminate]. injection Hstep as <-.
+      assert (Hlt : j_lock s = Some t) by (apply Hl; rewrite Et; reflexivity).
+      split; cbn [j_lock j_pc j_vis j_last j_log j_open].
+      + intros H. congruence.
+      + intros u Hu. jcases u t Hu; [discriminate|exact (Ok _ Hu)].
+      + intros u o' k' Hu. jcases u t Hu; [injection Hu as <- _; exact (Ow _ _ _ Et)|exact (Ow _ _ _ Hu)].
+      + intros u o' Hu. jcases u t Hu; [discriminate|exact (Oc _ _ Hu)].
+    - rewrite Hsplit in Hstep. discriminate.
+    - destruct (j_pc s t) as [|o| |o k|o k|o n] eqn:Et; try discriminate.
+      destruct (Nat.eqb k nf); [|discriminate]. injection Hstep as <-.
+      assert (Hlt : j_lock s = Some t) by (apply Hl; rewrite Et; reflexivity).
+      assert (Honly : forall u, holds_lock (j_pc s u) = true -> u = t).
+      { intros u Hu. apply Hl in Hu. congruence. }
+      split; cbn [j_lock j_pc j_vis j_last j_log j_open body_of].
+      + intros _. exact (Ow _ _ _ Et).
+      + intros u Hu. jcases u t Hu; [discriminate|].
+        exfalso. apply n. apply Honly. rewrite Hu. reflexivity.
+      + intros u o' k' Hu. jcases u t Hu; [discriminate|].
+        exfalso. apply n. apply Honly. rewrite Hu. reflexivity.
+      + intros u o' Hu. jcases u t Hu; [discriminate|exact (Oc _ _ Hu)].
+    - destruct (j_pc s t) as [|o| |o k|o k|o n] eqn:Et; try discriminate.
+      destruct (n <? jc_ncb c); [|discriminate]. injection Hstep as <-.
+      split; cbn [j_lock j_pc j_vis j_last j_log j_open].
+      + exact Of.
+      + intros u Hu. jcases u t Hu; [discriminate|exact (Ok _ Hu)].
+      + intros u o' k' Hu. jcases u t Hu; [discriminate|exact (Ow _ _ _ Hu)].
+      + intros u o' Hu. jcases u t Hu; [discriminate|exact (Oc _ _ Hu)].
+    - destruct (j_pc s t) as [|o| |o k|o k|o n] eqn:Et; try discriminate.
+      destruct (Nat.eqb n (jc_ncb c)); [|discriminate]. injection Hstep as <-.
+      split; cbn [j_lock j_pc j_vis j_last j_log j_open].
+      + exact Of.
+      + intros u Hu. jcases u t Hu; [discriminate|exact (Ok _ Hu)].
+      + intros u o' k' Hu. jcases u t Hu; [discriminate|exact (Ow _ _ _ Hu)].
+      + intros u o' Hu. jcases u t Hu; [discriminate|exact (Oc _ _ Hu)].
+  Qed.
+
+  Lemma oinv_run_from : forall tr s s', jinv s -> oinv s -> run s tr = Some s' -> jinv s' /\ oinv s'.
+  Proof.
+    induction tr as [|a tr IH]; intros s s' Hi Ho Hr; cbn [jrun] in Hr.
+    - injection Hr as <-. split; assumption.
+    - destruct (step s a) as [s1|] eqn:E; [|discriminate].
+      exact (IH _ _ (jinv_step _ _ _ Hi E) (oinv_step _ _ _ Hi Ho E) Hr).
+  Qed.
+
+  Theorem open_bodies_bounded : forall tr s, run jinit tr = Some s -> j_open s <= 1.
+  Proof.
+    intros tr s H. destruct (oinv_run_from _ _ _ jinv_init oinv_init H) as [I [Of Ok Ow _]].
+    assert (Hb : body_of body (j_last s) <= 1).
+    { unfold body_of. destruct (j_last s) as [[u o]|]; [apply Hbody|lia]. }
+    destruct (j_lock s) as [t|] eqn:El.
+    - apply (ji_lock _ I) in El. destruct (j_pc s t) as [|o| |o k|o k|o n] eqn:Et; try discriminate.
+      + rewrite (Ok _ Et). exact Hb.
+      + rewrite (Ow _ _ _ Et). apply Hbody.
+    - rewrite (Of eq_refl). exact Hb.
+  Qed.
+
+  (* with the mutex free, the only body still open is the one of the response currently held *)
+  Theorem open_bodies_quiescent : forall tr s,
+    run jinit tr = Some s -> j_lock s = None -> j_open s = body_of body (j_last s).
+  Proof.
+    intros tr s H Hfree. destruct (oinv_run_from _ _ _ jinv_init oinv_init H) as [_ [Of _ _ _]]. exact (Of Hfree).
+  Qed.
+End LTS.
+
+(* ---- callbacks: counted per thread, for every configuration ---- *)
+Section Callbacks.
+  Variable O : Type.
+  Variable body : O -> nat.
+  Variable c : jcfg.
+  Notation ncb := (jc_ncb c).
+
+  Definition pend (p : jpc O) : nat := match p with JUnlocked _ n => ncb - n | _ => 0 end.
+  Definition unl (p : jpc O) : nat := match p with JUnlocked _ _ => 1 | _ => 0 end.
+
+  Definition cinv (t : nat) (s : jstate O) : Prop :=
+    jcount (is_callback t) (j_log s) + pend (j_pc s t) = ncb * jcount (is_commit t) (j_log s) /\
+    jcount (is_jreturn t) (j_log s) + unl (j_pc s t) = jcount (is_commit t) (j_log s) /\
+    (forall o n, j_pc s t = JUnlocked o n -> n <= ncb).
+
+  Lemma cinv_step : forall t s a s', cinv t s -> jstep body c s a = Some s' -> cinv t s'.
+  Proof.
+    intros t s a s' [H1 [H2 H3]] Hstep. unfold cinv.
+    destruct a as [u o|u|u o|u|u|u|u|u]; cbn [jstep] in Hstep.
+    - destruct (jc_in_lock c); [discriminate|]. destruct (j_pc s u) eqn:Eu; try discriminate.
+      injection Hstep as <-. cbn [set_pc j_pc j_log].
+      destruct (Nat.eq_dec t u) as [->|Hne].
+      + rewrite jupd_same. rewrite Eu in *. cbn [pend unl] in *. repeat split; try assumption. intros; discriminate.
+      + rewrite jupd_other by exact Hne. repeat split; assumption.
+    - destruct (j_lock s); [discriminate|].
+      destruct (j_pc s u) as [|o| |o k|o k|o n] eqn:Eu; try discriminate;
+        [destruct (jc_in_lock c); [|discriminate]| |]; injection Hstep as <-; cbn [j_pc j_log];
+        (destruct (Nat.eq_dec t u) as [->|Hne];
+         [rewrite jupd_same; rewrite Eu in *; cbn [pend unl] in *; repeat split; try assumption; intros; discriminate
+         |rewrite jupd_other by exact Hne; repeat split; assumption]).
+    - destruct (j_pc s u) eqn:Eu; try discriminate. injection Hstep as <-. cbn [j_pc j_log].
+      destruct (Nat.eq_dec t u) as [->|Hne].
+      + rewrite jupd_same. rewrite Eu in *. cbn [pend unl] in *. repeat split; try assumption. intros; discriminate.
+      + rewrite jupd_other by exact Hne. repeat split; assumption.
+    - destruct (j_pc s u) as [|o| |o k|o k|o n] eqn:Eu; try discriminate.
+      destruct (k <? jc_nfields c); [|discriminate]. injection Hstep as <-. cbn [j_pc j_log].
+      destruct (Nat.eq_dec t u) as [->|Hne].
+      + rewrite jupd_same. rewrite Eu in *. cbn [pend unl] in *. repeat split; try assumption. intros; discriminate.
+      + rewrite jupd_other by exact Hne. repeat split; assumption.
+    - destruct (jc_split c); [|discriminate].
+      destruct (j_pc s u) as [|o| |o k|o k|o n] eqn:Eu; try discriminate.
+      destruct ((0 <? k) && (k <? jc_nfields c)); [|discriminate]. injection Hstep as <-. cbn [j_pc j_log].
+      destruct (Nat.eq_dec t u) as [->|Hne].
+      + rewrite jupd_same. rewrite Eu in *. cbn [pend unl] in *. repeat split; try assumption. intros; discriminate.
+      + rewrite jupd_other by exact Hne. repeat split; assumption.
+    - destruct (j_pc s u) as [|o| |o k|o k|o n] eqn:Eu; try discriminate.
+      destruct (Nat.eqb k (jc_nfields c)); [|discriminate]. injection Hstep as <-.
+      cbn [j_pc j_log jcount is_commit is_callback is_jreturn].
+      destruct (Nat.eq_dec t u) as [->|Hne].
+      + rewrite jupd_same, Nat.eqb_refl. rewrite Eu in *. cbn [pend unl] in *.
+        split; [|split].
+        * rewrite Nat.mul_add_distr_l, Nat.mul_1_r. cbn [Nat.add]. lia.
+        * cbn [Nat.add]. lia.
+        * intros o' n' Hu. injection Hu as _ <-. lia.
+      + rewrite jupd_other by exact Hne. destruct (Nat.eqb_spec u t); [congruence|].
+        cbn [Nat.add]. repeat split; assumption.
+    - destruct (j_pc s u) as [|o| |o k|o k|o n] eqn:Eu; try discriminate.
+      destruct (Nat.ltb_spec n ncb) as [Hlt|]; [|discriminate]. injection Hstep as <-.
+      cbn [j_pc j_log jcount is_commit is_callback is_jreturn].
+      destruct (Nat.eq_dec t u) as [->|Hne].
+      + rewrite jupd_same, Nat.eqb_refl. rewrite Eu in *. cbn [pend unl] in *.
+        split; [|split].
+        * cbn [Nat.add]. lia.
+        * cbn [Nat.add]. lia.
+        * intros o' n' Hu. injection Hu as _ <-. lia.
+      + rewrite jupd_other by exact Hne. destruct (Nat.eqb_spec u t); [congruence|].
+        cbn [Nat.add]. repeat split; assumption.
+    - destruct (j_pc s u) as [|o| |o k|o k|o n] eqn:Eu; try discriminate.
+      destruct (Nat.eqb_spec n ncb) as [->|]; [|discriminate]. injection Hstep as <-.
+      cbn [j_pc j_log jcount is_commit is_callback is_jreturn].
+      destruct (Nat.eq_dec t u) as [->|Hne].
+      + rewrite jupd_same, Nat.eqb_refl. rewrite Eu in *. cbn [pend unl] in *.
+        split; [|split].
+        * cbn [Nat.add]. lia.
+        * cbn [Nat.add]. lia.
+        * intros; discriminate.
+      + rewrite jupd_other by exact Hne. destruct (Nat.eqb_spec u t); [congruence|].
+        cbn [Nat.add]. repeat split; assumption.
+  Qed.
+
+  Lemma cinv_run_from : forall t tr s s', cinv t s -> jrun body c s tr = Some s' -> cinv t s'.
+  Proof.
+    induction tr as [|a tr IH]; intros s s' Hi Hr; cbn [jrun] in Hr.
+    - injection Hr as <-. exact Hi.
+    - destruct (jstep body c s a) as [s1|] eqn:E; [|discriminate].
+      exact (IH _ _ (cinv_step _ _ _ _ Hi E) Hr).
+  Qed.
+
+  (* in every history, per thread: callbacks never run ahead of the thread's own commits; once the
+     thread is back outside Execute it made exactly ncb callbacks per execution, each execution
+     committed exactly once and returned exactly once *)
+  Theorem callback_once : forall tr s t,
+    jrun body c jinit tr = Some s ->
+    jcount (is_callback t) (j_log s) <= ncb * jcount (is_commit t) (j_log s) /\
+    (j_pc s t = JIdle ->
+       jcount (is_callback t) (j_log s) = ncb * jcount (is_jreturn t) (j_log s) /\
+       jcount (is_commit t) (j_log s) = jcount (is_jreturn t) (j_log s)).
+  Proof.
+    intros tr s t H.
+    assert (I : cinv t s).
+    { apply (cinv_run_from t tr jinit s); [|exact H]. unfold cinv. cbn. repeat split; try lia. intros; discriminate. }
+    destruct I as [H1 [H2 _]]. split; [lia|].
+    intros Et. rewrite Et in *. cbn [pend unl] in *. split; [|lia].
+    rewrite Nat.add_0_r in H1, H2. rewrite H1, H2. reflexivity.
+  Qed.
+
+  (* a callback step is possible only after the thread's own unlock, and the return only after
+     all callbacks *)
+  Theorem callback_only_after_unlock : forall s t s',
+    jstep body c s (JCallback t) = Some s' ->
+    exists o n, j_pc s t = JUnlocked o n /\ n < ncb /\ j_pc s' t = JUnlocked o (S n).
+  Proof.
+    intros s t s' H. cbn [jstep] in H. destruct (j_pc s t) as [|o| |o k|o k|o n] eqn:Et; try discriminate.
+    destruct (Nat.ltb_spec n ncb); [|discriminate]. injection H as <-. exists o, n.
+    split; [reflexivity|]. split; [assumption|]. cbn [j_pc]. apply jupd_same.
+  Qed.
+
+  Theorem return_carries_own_outcome : forall s t s',
+    jstep body c s (JReturn t) = Some s' ->
+    exists o, j_pc s t = JUnlocked o ncb /\ j_log s' = JEvReturn t o :: j_log s /\ j_pc s' t = JIdle.
+  Proof.
+    intros s t s' H. cbn [jstep] in H. destruct (j_pc s t) as [|o| |o k|o k|o n] eqn:Et; try discriminate.
+    destruct (Nat.eqb_spec n ncb) as [->|]; [|discriminate]. injection H as <-. exists o.
+    split; [reflexivity|]. split; [reflexivity|]. cbn [j_pc]. apply jupd_same.
+  Qed.
+End Callbacks.
+
+(* ------------------------------------------------------------------ the three jobs *)
+Definition no_body {O : Type} : O -> nat := fun _ => 0.
+
+Lemma fn_cfg_split : jc_split fn_cfg = false.            Proof. reflexivity. Qed.
+Lemma sh_cfg_split : forall cb, jc_split (sh_cfg cb) = false.  Proof. reflexivity. Qed.
+Lemma cu_cfg_split : forall cb, jc_split (cu_cfg cb) = false.  Proof. reflexivity. Qed.
+
+Theorem callback_counts :
+  jc_ncb fn_cfg = 0 /\ jc_ncb (sh_cfg false) = 0 /\ jc_ncb (cu_cfg false) = 0 /\
+  jc_ncb (sh_cfg true) = 1 /\ jc_ncb (cu_cfg true) = 1.
+Proof. repeat split; reflexivity. Qed.
+
+Theorem where_outcome_is_computed :
+  jc_in_lock fn_cfg = false /\ (forall cb, jc_in_lock (sh_cfg cb) = false) /\ (forall cb, jc_in_lock (cu_cfg cb) = true).
+Proof. repeat split; reflexivity. Qed.
+
+Theorem fn_last_outcome_atomic : forall (R E : Type) (zero : R) tr (s : jstate (fn_outcome R E)),
+  jrun no_body fn_cfg jinit tr = Some s -> j_lock s = None ->
+  fn_visible zero s = match j_last s with Some (_, o) => fn_commit R E zero o | None => fn_initial R E zero end /\
+  last_commit (j_log s) = j_last s.
+Proof.
+  intros R E zero tr s H Hfree.
+  destruct (last_outcome_atomic _ no_body fn_cfg fn_cfg_split tr s H Hfree) as [Hv Hl]. split; [|exact Hl].
+  unfold fn_visible, field_of. change (jc_nfields fn_cfg) with 3 in Hv.
+  rewrite (Hv 0), (Hv 1), (Hv 2) by lia.
+  destruct (j_last s) as [[u o]|]; [|reflexivity].
+  destruct (fn_commit R E zero o) as [[a b] d]. reflexivity.
+Qed.
+
+Theorem sh_last_outcome_atomic : forall (S : Type) (empty : S) cb tr (s : jstate (sh_outcome S)),
+  jrun no_body (sh_cfg cb) jinit tr = Some s -> j_lock s = None ->
+  sh_visible empty s = match j_last s with Some (_, o) => sh_commit S o | None => (empty, empty, 0%Z, go_StatusNA) end /\
+  last_commit (j_log s) = j_last s.
+Proof.
+  intros S empty cb tr s H Hfree.
+  destruct (last_outcome_atomic _ no_body (sh_cfg cb) (sh_cfg_split cb) tr s H Hfree) as [Hv Hl]. split; [|exact Hl].
+  unfold sh_visible, field_of. change (jc_nfields (sh_cfg cb)) with 4 in Hv.
+  rewrite (Hv 0), (Hv 1), (Hv 2), (Hv 3) by lia.
+  destruct (j_last s) as [[u o]|]; [|reflexivity].
+  destruct (sh_commit S o) as [[[a b] d] e]. reflexivity.
+Qed.
+
+Theorem cu_last_outcome_atomic : forall (E : Type) cb tr (s : jstate (cu_outcome E)),
+  jrun (cu_body E) (cu_cfg cb) jinit tr = Some s -> j_lock s = None ->
+  cu_visible s = match j_last s with Some (_, o) => cu_commit E o | None => (None, go_StatusNA) end /\
+  last_commit (j_log s) = j_last s.
+Proof.
+  intros E cb tr s H Hfree.
+  destruct (last_outcome_atomic _ (cu_body E) (cu_cfg cb) (cu_cfg_split cb) tr s H Hfree) as [Hv Hl]. split; [|exact Hl].
+  unfold cu_visible, field_of. change (jc_nfields (cu_cfg cb)) with 2 in Hv.
+  rewrite (Hv 0), (Hv 1) by lia.
+  destruct (j_last s) as [[u o]|]; reflexivity.
+Qed.
+
+Lemma cu_body_le1 : forall E (o : cu_outcome E), cu_body E o <= 1.
+Proof. intros E [[[c [|]]|] e]; cbn; lia. Qed.
+
+Theorem cu_open_bodies_bounded : forall (E : Type) cb tr (s : jstate (cu_outcome E)),
+  jrun (cu_body E) (cu_cfg cb) jinit tr = Some s -> j_open s <= 1.
+Proof.
+  intros E cb tr s H.
+  apply (open_bodies_bounded _ (cu_body E) (cu_cfg cb) (cu_cfg_split cb)) with (tr := tr);
+    try reflexivity; try exact H; try (cbn; lia); try apply cu_body_le1.
+Qed.
+
+Theorem cu_open_bodies_quiescent : forall (E : Type) cb tr (s : jstate (cu_outcome E)),
+  jrun (cu_body E) (cu_cfg cb) jinit tr = Some s -> j_lock s = None ->
+  j_open s = body_of (cu_body E) (j_last s).
+Proof.
+  intros E cb tr s H.
+  apply (open_bodies_quiescent _ (cu_body E) (cu_cfg cb) (cu_cfg_split cb)) with (tr := tr);
+    try reflexivity; try exact H; try (cbn; lia); try apply cu_body_le1.
+Qed.
+
+Theorem cu_do_serialised : forall (E : Type) cb tr (s : jstate (cu_outcome E)) t u,
+  jrun (cu_body E) (cu_cfg cb) jinit tr = Some s ->
+  holds_lock (j_pc s t) = true -> holds_lock (j_pc s u) = true -> t = u.
+Proof. intros E cb tr s t u. apply critical_section_exclusive. apply cu_cfg_split. Qed.
+
+(* ---- non-vacuity ---- *)
+Definition o200 : cu_outcome unit := (Some (200%Z, true), None).
+Definition o500 : cu_outcome unit := (Some (500%Z, true), None).
+Definition oerr : cu_outcome unit := (None, Some tt).
+Definition one_exec (t : nat) (o : cu_outcome unit) : list (jlabel (cu_outcome unit)) :=
+  [JLock t; JDo t o; JWrite t; JWrite t; JUnlock t; JCallback t; JReturn t].
+
+Example cu_reachable_nontrivial :
+  exists s, jrun (cu_body unit) (cu_cfg true) jinit (one_exec 0 o200 ++ one_exec 1 o500 ++ [JLock 2; JDo 2 oerr]) = Some s /\
+            j_lock s = Some 2 /\ j_last s = Some (1, o500) /\ j_open s = 0 /\ cu_visible s = (Some (500%Z, true), go_StatusFailure).
+Proof. eexists. split; [vm_compute; reflexivity|]. vm_compute. repeat split. Qed.
+
+Example cu_quiescent_nontrivial :
+  exists s, jrun (cu_body unit) (cu_cfg true) jinit (one_exec 0 o500 ++ one_exec 1 o200) = Some s /\
+            j_lock s = None /\ j_open s = 1 /\ cu_visible s = (Some (200%Z, true), go_StatusOK) /\
+            jcount (is_callback 1) (j_log s) = 1.
+Proof. eexists. split; [vm_compute; reflexivity|]. vm_compute. repeat split. Qed.
+
+Example fn_interleaved_nontrivial :
+  exists s, jrun no_body fn_cfg jinit
+              [JCompute 0 (7, None); JCompute 1 (9, Some tt); JLock 1; JWrite 1; JWrite 1; JWrite 1; JUnlock 1;
+               JLock 0; JWrite 0; JWrite 0; JWrite 0; JUnlock 0; JReturn 1] = Some s /\
+            j_lock s = None /\ fn_visible 0 s = (go_StatusOK, 7, None) /\ j_last s = Some (0, (7, @None unit)).
+Proof. eexists. split; [vm_compute; reflexivity|]. vm_compute. repeat split. Qed.
+
+(* ---- sensitivity ---- *)
+(* the field assignments split over two critical sections: a reader can see a mixed tuple
+   (status of execution 1, result and err of execution 0) *)
+Definition fn_cfg_split_commit : jcfg :=
+  {| jc_in_lock := false; jc_nfields := 3; jc_split := true; jc_ncb := 0; jc_close_prev := false |}.
+
+Example split_commit_mixes :
+  exists s, jrun no_body fn_cfg_split_commit jinit
+              [JCompute 0 (7, None); JCompute 1 (9, Some tt); JLock 0; JWrite 0; JSplit 0;
+               JLock 1; JWrite 1; JWrite 1; JWrite 1; JUnlock 1;
+               JLock 0; JWrite 0; JWrite 0; JUnlock 0] = Some s /\
+            j_lock s = None /\ j_last s = Some (0, (7, @None unit)) /\
+            fn_visible 0 s = (go_StatusFailure, 7, None) /\
+            fn_commit nat unit 0 (7, None) = (go_StatusOK, 7, None).
+Proof. eexists. split; [vm_compute; reflexivity|]. vm_compute. repeat split. Qed.
+
+(* the previous body is not closed: one more open body per execution *)
+Definition cu_cfg_no_close : jcfg :=
+  {| jc_in_lock := true; jc_nfields := 2; jc_split := false; jc_ncb := 0; jc_close_prev := false |}.
+Definition exec_nocb (t : nat) (o : cu_outcome unit) : list (jlabel (cu_outcome unit)) :=
+  [JLock t; JDo t o; JWrite t; JWrite t; JUnlock t; JReturn t].
+
+Example no_close_leaks :
+  exists s, jrun (cu_body unit) cu_cfg_no_close jinit
+              (exec_nocb 0 o200 ++ exec_nocb 0 o200 ++ exec_nocb 0 o500 ++ exec_nocb 0 o200 ++ exec_nocb 0 o200) = Some s /\
+            j_lock s = None /\ j_open s = 5.
+Proof. eexists. split; [vm_compute; reflexivity|]. vm_compute. repeat split. Qed.
